@@ -121,6 +121,11 @@ pub trait Prop {
     fn panic_is_violation() -> bool {
         true
     }
+    /// Is this case inside the property's domain? The generators only produce admissible cases;
+    /// cases edited by the fuzzer's mutator are filtered with this predicate.
+    fn admissible(_case: &Self::Case) -> bool {
+        true
+    }
 }
 
 // ---------------------------------------------------------------------------
@@ -994,14 +999,17 @@ pub fn print_case<P: Prop>(args: &(u64, String, u64)) -> i32 {
 }
 
 // ---------------------------------------------------------------------------
-// coverage-guided fuzzing: the fuzzer's bytes are the generator's random choices
+// coverage-guided fuzzing: the fuzzer's input is a case in its replay (JSON) form; a custom
+// mutator edits the JSON tree structurally (numbers, flags, float bit patterns, list elements).
+//
+// (Driving the proptest strategies with the fuzzer's bytes through RngAlgorithm::PassThrough was
+// tried first and does not work: every prop_oneof!/Union keeps lazily generated alternatives that
+// fork the byte stream in half, so a few dozen unions exhaust any input, and on the zeros an
+// exhausted stream hands out rand's uniform integer sampling never terminates.)
 
-/// Build the case that the strategy produces when `data` is its stream of random bytes.
-pub fn case_from_bytes<P: Prop>(profile: &str, data: &[u8]) -> Option<P::Case> {
-    let strat = P::strategy(profile);
-    let cfg = Config { failure_persistence: None, ..Config::default() };
-    let mut runner = TestRunner::new_with_rng(cfg, TestRng::from_seed(RngAlgorithm::PassThrough, data));
-    strat.new_tree(&mut runner).ok().map(|t| t.current())
+/// Decode a fuzzer input into a case.
+pub fn case_from_bytes<P: Prop>(data: &[u8]) -> Option<P::Case> {
+    serde_json::from_slice::<P::Case>(data).ok()
 }
 
 thread_local! {
@@ -1016,10 +1024,10 @@ pub fn fuzz_one<P: Prop>(profile: &str, data: &[u8]) -> Result<(), String> {
         install_panic_hook();
         crate::alloc_count::track_this_thread();
     });
-    if data.len() < 8 {
+    let Some(case) = case_from_bytes::<P>(data) else { return Ok(()) };
+    if !P::admissible(&case) {
         return Ok(());
     }
-    let Some(case) = case_from_bytes::<P>(profile, data) else { return Ok(()) };
     let known_listed = FUZZ_KNOWN.with(|k| {
         let mut k = k.borrow_mut();
         if k.is_none() {
@@ -1030,6 +1038,8 @@ pub fn fuzz_one<P: Prop>(profile: &str, data: &[u8]) -> Result<(), String> {
     let mut obs = Obs::default();
     match run_case::<P>(&case, &mut obs) {
         CaseOutcome::Pass => Ok(()),
+        // a mutated case that violates a precondition of the oracle (e.g. an invalid machine where
+        // the property speaks of validated ones) is not a finding
         CaseOutcome::Harness(_) => Ok(()),
         CaseOutcome::Fail(f) => {
             if known_listed.iter().any(|k| k.signature == f.signature) {
@@ -1038,7 +1048,7 @@ pub fn fuzz_one<P: Prop>(profile: &str, data: &[u8]) -> Result<(), String> {
             let rec = FailureRec {
                 signature: f.signature.clone(),
                 detail: f.detail.clone(),
-                profile: format!("fuzz:{profile}"),
+                profile: format!("fuzz_{profile}"),
                 index: fingerprint(&case) % 1_000_000_007,
                 case: serde_json::to_value(&case).unwrap_or(Value::Null),
                 original_case: Value::Null,
@@ -1050,4 +1060,180 @@ pub fn fuzz_one<P: Prop>(profile: &str, data: &[u8]) -> Result<(), String> {
             Err(p.display().to_string())
         }
     }
+}
+
+struct Xs(u64);
+impl Xs {
+    fn next(&mut self) -> u64 {
+        self.0 ^= self.0 << 13;
+        self.0 ^= self.0 >> 7;
+        self.0 ^= self.0 << 17;
+        self.0
+    }
+    fn below(&mut self, n: usize) -> usize {
+        if n == 0 {
+            0
+        } else {
+            (self.next() % n as u64) as usize
+        }
+    }
+}
+
+fn mutate_float_string(s: &str, r: &mut Xs) -> Option<String> {
+    // "display#hexbits" with 16 (f64) or 8 (f32) hex digits
+    let hex = s.rsplit('#').next()?;
+    if !s.contains('#') || !(hex.len() == 16 || hex.len() == 8) {
+        return None;
+    }
+    let bits = u64::from_str_radix(hex, 16).ok()?;
+    let wide = hex.len() == 16;
+    let specials64: [u64; 10] = [
+        0,
+        0x8000_0000_0000_0000,
+        1,
+        0x3ff0_0000_0000_0000,
+        0x3fe0_0000_0000_0000,
+        0x7ff0_0000_0000_0000,
+        0x7ff8_0000_0000_0000,
+        0x3e11_2e0b_e826_d695, // 1e-9
+        0x4234_1dd7_6000_0000, // 86.4e9
+        0x7fef_ffff_ffff_ffff,
+    ];
+    let specials32: [u64; 8] = [0, 0x8000_0000, 1, 0x3f80_0000, 0x3f00_0000, 0x7f80_0000, 0x7fc0_0000, 0x3e80_0000];
+    let nb = match r.below(5) {
+        0 => bits ^ (1u64 << r.below(if wide { 64 } else { 32 })),
+        1 => bits.wrapping_add(1),
+        2 => bits.wrapping_sub(1),
+        3 => {
+            if wide {
+                specials64[r.below(specials64.len())]
+            } else {
+                specials32[r.below(specials32.len())]
+            }
+        }
+        _ => {
+            if wide {
+                let v = f64::from_bits(bits);
+                (if r.below(2) == 0 { v * 2.0 } else { v * 0.5 }).to_bits()
+            } else {
+                let v = f32::from_bits(bits as u32);
+                (if r.below(2) == 0 { v * 2.0 } else { v * 0.5 }).to_bits() as u64
+            }
+        }
+    };
+    Some(if wide { format!("m#{nb:016x}") } else { format!("m#{:08x}", nb as u32) })
+}
+
+fn mutate_value(v: &mut Value, r: &mut Xs, depth: u32) {
+    match v {
+        Value::Null => {}
+        Value::Bool(b) => *b = !*b,
+        Value::Number(n) => {
+            if let Some(u) = n.as_u64() {
+                let nv = match r.below(9) {
+                    0 => u.wrapping_add(1),
+                    1 => u.wrapping_sub(1),
+                    2 => u / 2,
+                    3 => u.saturating_mul(2),
+                    4 => 0,
+                    5 => 1,
+                    6 => u64::MAX,
+                    7 => r.next() % 8,
+                    _ => r.next() % 100_000,
+                };
+                *v = Value::from(nv);
+            } else if let Some(i) = n.as_i64() {
+                *v = Value::from(i.wrapping_neg());
+            }
+        }
+        Value::String(s) => {
+            if let Some(m) = mutate_float_string(s, r) {
+                *s = m;
+            }
+        }
+        Value::Array(a) => {
+            // structural edit of the list, or descend
+            let choice = if a.is_empty() || depth > 40 { 9 } else { r.below(10) };
+            match choice {
+                0 => {
+                    let i = r.below(a.len());
+                    a.remove(i);
+                }
+                1 => {
+                    let i = r.below(a.len());
+                    let e = a[i].clone();
+                    a.insert(i, e);
+                }
+                2 => {
+                    let (i, j) = (r.below(a.len()), r.below(a.len()));
+                    a.swap(i, j);
+                }
+                3 => {
+                    // copy one element over another (same shape)
+                    let (i, j) = (r.below(a.len()), r.below(a.len()));
+                    let e = a[i].clone();
+                    a[j] = e;
+                }
+                9 => {}
+                _ => {
+                    let i = r.below(a.len());
+                    mutate_value(&mut a[i], r, depth + 1);
+                }
+            }
+        }
+        Value::Object(o) => {
+            if o.is_empty() {
+                return;
+            }
+            let i = r.below(o.len());
+            if let Some((_, child)) = o.iter_mut().nth(i) {
+                mutate_value(child, r, depth + 1);
+            }
+        }
+    }
+}
+
+/// Custom libFuzzer mutator: edit the JSON form of a case. Returns the new size, or None when the
+/// input is not JSON (the caller then falls back to libFuzzer's byte mutations).
+pub fn mutate_json(data: &mut [u8], size: usize, max_size: usize, seed: u32) -> Option<usize> {
+    let mut v: Value = serde_json::from_slice(&data[..size]).ok()?;
+    let mut r = Xs((seed as u64).wrapping_mul(0x9E37_79B9_7F4A_7C15) | 1);
+    for _ in 0..1 + r.below(3) {
+        mutate_value(&mut v, &mut r, 0);
+    }
+    let out = serde_json::to_vec(&v).ok()?;
+    if out.len() > max_size || out.len() > data.len() {
+        return Some(size);
+    }
+    data[..out.len()].copy_from_slice(&out);
+    Some(out.len())
+}
+
+/// `mbn-verif corpus <ID> <profile> <dir> <count>`: write generated cases as fuzzer seed inputs
+pub fn write_corpus<P: Prop>(args: &(u64, String, String, u64)) -> i32 {
+    let (seed, profile, dir, count) = args;
+    let _ = std::fs::create_dir_all(dir);
+    let strat = P::strategy(profile);
+    for i in 0..*count {
+        let mut runner = runner_for(seed.wrapping_add(0x5eed), P::ID, profile, i);
+        if let Ok(t) = strat.new_tree(&mut runner) {
+            if let Ok(b) = serde_json::to_vec(&t.current()) {
+                if b.len() <= 200_000 {
+                    let _ = std::fs::write(format!("{dir}/gen_{i:04}.json"), b);
+                }
+            }
+        }
+    }
+    0
+}
+
+/// `mbn-verif fuzzcase <ID> <profile> <file>`: run one saved fuzzer input through the normal binary
+pub fn fuzz_file<P: Prop>(args: &(String, String)) -> i32 {
+    let data = std::fs::read(&args.1).expect("read input");
+    let t0 = Instant::now();
+    let case = case_from_bytes::<P>(&data);
+    eprintln!("generation took {:?}, case generated: {}", t0.elapsed(), case.is_some());
+    let r = fuzz_one::<P>(&args.0, &data);
+    eprintln!("total {:?}: {:?}", t0.elapsed(), r);
+    if r.is_err() { 1 } else { 0 }
 }
